@@ -81,6 +81,9 @@ pub enum Op {
     Decrease { pos: u16, amount: DecSel, v2: bool },
     Reposition { pos: u16, range: RangeSel, #[serde(with = "crate::ser::u128s")] liquidity: u128 },
     Swap { trader: u8, a_to_b: bool, exact_in: bool, amount: u64, limit: LimitSel, v2: bool },
+    /// reverse of the trader's last successful swap: exact-in spends what that swap paid out (+delta),
+    /// exact-out asks back what that swap took in (+delta)
+    SwapBack { trader: u8, exact_in: bool, delta: i8, v2: bool },
     UpdateFees { pos: u16 },
     CollectFees { pos: u16, v2: bool },
     CollectProtocolFees { v2: bool },
@@ -144,6 +147,8 @@ pub struct Hist {
     pub treasury: usize,
     pub array_starts: Vec<i32>,
     pub base_unit: i32,
+    /// (user, a_to_b, amount in, amount out) of the last successful swap, from balance deltas
+    pub last_swap: Option<(usize, bool, u64, u64)>,
 }
 
 pub fn start_sqrt_price(spec: &WorldSpec) -> u128 {
@@ -220,7 +225,7 @@ impl Hist {
         }
         let ts = spec.tick_spacing as i32;
         let base_unit = floor_div(spec.start_tick.clamp(MIN_TICK, MAX_TICK), ts);
-        Some(Hist { w, spec: spec.clone(), pool, lps, traders, treasury, array_starts: vec![], base_unit })
+        Some(Hist { w, spec: spec.clone(), pool, lps, traders, treasury, array_starts: vec![], base_unit, last_swap: None })
     }
 
     pub fn snap(&self) -> Snap {
@@ -424,6 +429,20 @@ impl Hist {
                 res.swap = Some(sp);
                 ix
             }
+            Op::SwapBack { trader, exact_in, delta, v2 } => {
+                let u = self.traders[*trader as usize % self.traders.len()];
+                let Some((lu, la2b, lin, lout)) = self.last_swap else { return res };
+                if lu != u {
+                    return res;
+                }
+                res.user = Some(u);
+                let base = if *exact_in { lout } else { lin };
+                let amount = (base as i128 + *delta as i128).clamp(0, u64::MAX as i128) as u64;
+                let sp = SwapParams { amount, threshold: SwapParams::neutral_threshold(*exact_in), sqrt_price_limit: 0, exact_in: *exact_in, a_to_b: !la2b };
+                let ix = if *v2 { self.w.ix_swap_v2(self.pool, u, &sp) } else { self.w.ix_swap(self.pool, u, &sp) };
+                res.swap = Some(sp);
+                ix
+            }
             Op::UpdateFees { pos } => {
                 let Some(p) = pick_pos(*pos) else { return res };
                 res.pos = Some(p);
@@ -498,8 +517,20 @@ impl Hist {
                 return res;
             }
         };
+        let swap_pre = res.swap.as_ref().map(|_| {
+            let u = res.user.unwrap();
+            let pl = &self.w.pools[self.pool];
+            (self.w.balance(&self.w.user_token_existing(u, &pl.mint_a.key)), self.w.balance(&self.w.user_token_existing(u, &pl.mint_b.key)))
+        });
         let o = self.w.exec(&ix);
         res.did = if o.ok() { Did::Ok } else { Did::Rejected(o.code().unwrap()) };
+        if let (true, Some((a0, b0)), Some(sp)) = (o.ok(), swap_pre, res.swap.as_ref()) {
+            let u = res.user.unwrap();
+            let pl = &self.w.pools[self.pool];
+            let (a1, b1) = (self.w.balance(&self.w.user_token_existing(u, &pl.mint_a.key)), self.w.balance(&self.w.user_token_existing(u, &pl.mint_b.key)));
+            let (tin, tout) = if sp.a_to_b { (a0.saturating_sub(a1), b1.saturating_sub(b0)) } else { (b0.saturating_sub(b1), a1.saturating_sub(a0)) };
+            self.last_swap = Some((u, sp.a_to_b, tin, tout));
+        }
         res.outcome = Some(o);
         res
     }
@@ -623,6 +654,28 @@ pub fn swap_op() -> BoxedStrategy<Op> {
         .boxed()
 }
 
+pub fn swap_back_op() -> BoxedStrategy<Op> {
+    (0u8..2, any::<bool>(), -2i8..=2, any::<bool>()).prop_map(|(trader, exact_in, delta, v2)| Op::SwapBack { trader, exact_in, delta, v2 }).boxed()
+}
+
+/// a closed run of swaps by trader 0: related sizes, back and forth
+pub fn swap_run_strategy() -> BoxedStrategy<Vec<Op>> {
+    (swap_amount_strategy(), prop::collection::vec((1u64..=16, -2i64..=2, any::<bool>(), any::<bool>(), 0u8..4, any::<bool>()), 3..=12))
+        .prop_map(|(base, v)| {
+            let mut ops = vec![];
+            for (k, d, a_to_b, exact_in, mode, v2) in v {
+                if mode == 0 || ops.is_empty() {
+                    let amount = ((base as u128 * k as u128 / 8) as i128 + d as i128).clamp(0, u64::MAX as i128) as u64;
+                    ops.push(Op::Swap { trader: 0, a_to_b, exact_in, amount, limit: LimitSel::None, v2 });
+                } else {
+                    ops.push(Op::SwapBack { trader: 0, exact_in, delta: d as i8, v2 });
+                }
+            }
+            ops
+        })
+        .boxed()
+}
+
 pub fn kind_strategy() -> BoxedStrategy<PosKind> {
     prop_oneof![3 => Just(PosKind::Plain), 2 => Just(PosKind::TokenExt), 1 => Just(PosKind::TokenExtMeta), 1 => Just(PosKind::Metadata)].boxed()
 }
@@ -640,7 +693,8 @@ pub fn op_strategy(with_rewards: bool) -> BoxedStrategy<Op> {
         14 => (any::<u16>(), liquidity_strategy(), inc_variant).prop_map(|(pos, liquidity, variant)| Op::Increase { pos, liquidity, variant }),
         8 => (any::<u16>(), dec, any::<bool>()).prop_map(|(pos, amount, v2)| Op::Decrease { pos, amount, v2 }),
         3 => (any::<u16>(), range_strategy(), liquidity_strategy()).prop_map(|(pos, range, liquidity)| Op::Reposition { pos, range, liquidity }),
-        30 => swap_op(),
+        26 => swap_op(),
+        6 => swap_back_op(),
         5 => any::<u16>().prop_map(|pos| Op::UpdateFees { pos }),
         5 => (any::<u16>(), any::<bool>()).prop_map(|(pos, v2)| Op::CollectFees { pos, v2 }),
         3 => any::<bool>().prop_map(|v2| Op::CollectProtocolFees { v2 }),
@@ -660,6 +714,23 @@ pub fn op_strategy(with_rewards: bool) -> BoxedStrategy<Op> {
     } else {
         base.boxed()
     }
+}
+
+/// prelude + closed swap runs only (C01 no-extraction clause)
+pub fn swap_run_history_strategy() -> BoxedStrategy<HistoryCase> {
+    let prelude = prop::collection::vec(
+        (0u8..3, kind_strategy(), range_strategy(), liquidity_strategy()).prop_map(|(lp, kind, range, liquidity)| {
+            vec![Op::Open { lp, kind, range }, Op::Increase { pos: u16::MAX, liquidity, variant: IncVariant::V1 }]
+        }),
+        1..=5,
+    )
+    .prop_map(|v| v.into_iter().flatten().collect::<Vec<Op>>());
+    (spec_strategy(false, false), prelude, swap_run_strategy())
+        .prop_map(|(spec, mut pre, ops)| {
+            pre.extend(ops);
+            HistoryCase { spec, ops: pre }
+        })
+        .boxed()
 }
 
 /// C01-style history: a liquidity prelude (so that swaps have something to trade against), then mixed ops
